@@ -59,7 +59,8 @@ def decode(data):
                 prim=fdp.ConsumeIntInRange(0, 11), stop=fdp.ConsumeIntInRange(0, 40), obj_inf=fdp.ConsumeBool(),
                 obj_t=fl(5.0, 500.0), surfs=surfs, img_curv=pick([0.0, 0.0, 0.0, -0.01]),
                 fmt=pick(['g', 'E', 'zemax']), enc=pick(['utf-8', 'utf-16']),
-                gcat=pick([None, ['SCHOTT'], ['SCHOTT', 'OHARA', 'HOYA']]))
+                gcat=pick([None, ['SCHOTT'], ['SCHOTT', 'OHARA', 'HOYA']]),
+                head=pick(['vers', 'vers', 'mode_first', 'ap_first']))
 
 
 def target(data):
